@@ -273,6 +273,8 @@ struct Tok {
     uri: Option<String>,
     challenge: Option<Vec<u8>>,
     redeemed: u32,
+    /// second of the first successful redemption
+    redeemed_at_s: i64,
 }
 
 #[derive(Clone, Default)]
@@ -284,6 +286,8 @@ struct Fam {
     replayed: bool,
     /// expiry second of the newest refresh token of the family = the session's own lifetime
     sess_exp_s: i64,
+    /// the replay that set `replayed` was of a token rotated inside its own issue second (finding F1)
+    f1: bool,
 }
 
 #[derive(Clone)]
@@ -487,6 +491,32 @@ struct Exec<'a> {
     trace: bool,
 }
 
+/// Recogniser of the recorded findings: the oracle's verdict (what the statement demands and the
+/// witness violates) mapped to a stable class. Everything else is `C39:<verdict>`.
+///  F1  a refresh token rotated inside the second it was issued in is redeemable once more
+///  F2  the code exchange does not test the authorising login session's expiry
+///  F3  refresh / introspection / userinfo do not test the parent login session's expiry
+///  F4  introspection / userinfo do not test the OAuth2 session's own expiry
+fn finding_class(verdict: &str) -> String {
+    match verdict {
+        "refresh-replay-same-second" | "session-alive-after-same-second-replay" => "C39-F1:refresh-replay-same-second".into(),
+        "code-exchange:login-session-expired" => "C39-F2:code-exchange-login-session-expired".into(),
+        "refresh:login-session-expired" | "introspect:login-session-expired" | "userinfo:login-session-expired" => "C39-F3:login-session-expired-not-enforced".into(),
+        "introspect:session-expired" | "userinfo:session-expired" | "refresh:session-expired" => "C39-F4:oauth2-session-expired-not-enforced".into(),
+        v => format!("C39:{v}"),
+    }
+}
+fn prefixed(what: &str, class: &str) -> String {
+    if class.starts_with("session-alive-after") {
+        class.to_string()
+    } else {
+        format!("{what}:{class}")
+    }
+}
+fn is_finding(class: &str) -> bool {
+    class.starts_with("C39-F")
+}
+
 /// What a client-authentication spec of an op turns into.
 struct Auth {
     cai: ClientAuthInfo,
@@ -507,7 +537,8 @@ impl<'a> Exec<'a> {
         sc
     }
     fn oracle(&mut self, class: &str, expected: String, observed: String) {
-        let f = Failure { kind: "impl-vs-oracle".into(), class: format!("C39:{class}"), input: self.input(), expected, observed };
+        let f = Failure { kind: "impl-vs-oracle".into(), class: finding_class(class), input: self.input(), expected, observed };
+        self.rep.count(&format!("oracle:{}", f.class));
         self.oracle_fail.push(f);
     }
     fn model_diff(&mut self, line: &str, model: &str, imp: &str) {
@@ -632,6 +663,7 @@ impl<'a> Exec<'a> {
             uri: None,
             challenge: None,
             redeemed: 0,
+            redeemed_at_s: 0,
         });
         Some(self.w.toks.len() - 1)
     }
@@ -731,7 +763,7 @@ impl<'a> Exec<'a> {
                 out.push(("session-revoked", "the OAuth2 session was revoked through the revocation endpoint".into()));
             }
             if f.replayed {
-                out.push(("session-alive-after-replay", "an already rotated refresh token of this session was presented again: the session must be revoked".into()));
+                out.push((if f.f1 { "session-alive-after-same-second-replay" } else { "session-alive-after-replay" }, "an already rotated refresh token of this session was presented again: the session must be revoked".into()));
             }
             if f.sess_exp_s > 0 && (ct / NS) as i64 > f.sess_exp_s {
                 out.push(("session-expired", format!("the OAuth2 session's lifetime ended at second {}", f.sess_exp_s)));
@@ -854,6 +886,7 @@ impl<'a> Exec<'a> {
             uri: None,
             challenge: None,
             redeemed: 0,
+            redeemed_at_s: 0,
         };
         self.w.toks.push(Tok { real: resp.access_token.clone(), kind: if user_grant { "access" } else { "caccess" }, model: idx("access="), ..base.clone() });
         if let (Some(rt), Some(rexp)) = (&resp.refresh_token, m.rexp) {
@@ -1005,6 +1038,7 @@ impl<'a> Exec<'a> {
             uri: Some(uri.to_string()),
             challenge,
             redeemed: 0,
+            redeemed_at_s: 0,
         });
         if wrote {
             self.cmp_state(Some(user_uuid(u as u64))).await;
@@ -1063,6 +1097,9 @@ impl<'a> Exec<'a> {
                         self.oracle_code(&tok, &a, uri.as_str(), verifier.as_deref(), ct, &m);
                         let root = if tok.kind == "code" { tok.root_scopes.clone() } else { m.scopes.clone() };
                         self.push_minted(resp, &m, k, &root, &model, true);
+                        if self.w.toks[ti].redeemed == 0 {
+                            self.w.toks[ti].redeemed_at_s = (ct / NS) as i64;
+                        }
                         self.w.toks[ti].redeemed += 1;
                         m.canon
                     }
@@ -1121,7 +1158,7 @@ impl<'a> Exec<'a> {
             self.oracle("code-scope-escalation", format!("tokens carry at most the code's scopes {:?}", tok.scopes), obs.clone());
         }
         for (class, why) in self.ledger_against(tok.account, None, tok.parent, ct) {
-            self.oracle(&format!("code-exchange:{class}"), format!("exchange must reject: {why}"), obs.clone());
+            self.oracle(&prefixed("code-exchange", class), format!("exchange must reject: {why}"), obs.clone());
         }
     }
 }
@@ -1152,7 +1189,14 @@ impl<'a> Exec<'a> {
         let model = if tok.model.is_some() { self.ask(&line) } else { None };
         // a replay, as the property reads it: a refresh token that was already redeemed, presented
         // again by its own (authenticated) client while the token itself is unexpired
-        let replay = tok.kind == "refresh" && tok.redeemed > 0 && a.client == tok.client && a.secret_ok && ((ct / NS) as i64) < tok.exp_s;
+        // … i.e. a presentation that would have been honoured had the token not been rotated
+        let replay = tok.kind == "refresh"
+            && tok.redeemed > 0
+            && a.client == tok.client
+            && a.secret_ok
+            && ((ct / NS) as i64) < tok.exp_s
+            && self.ledger_against(tok.account, tok.sid, tok.parent, ct).is_empty();
+        let same_second = tok.redeemed > 0 && tok.redeemed_at_s == tok.iat_s;
         let res = self.token_endpoint(&a, GrantTypeReq::RefreshToken { refresh_token: tok.real.clone(), scope: req_scopes.clone() }, ct).await;
         let imp = match &res {
             Err(e) => format!("err {}", oerr(e)),
@@ -1163,6 +1207,9 @@ impl<'a> Exec<'a> {
                     Ok(m) => {
                         self.oracle_refresh(&tok, &a, req_scopes.as_ref(), ct, &m);
                         self.push_minted(resp, &m, k, &tok.root_scopes, &model, true);
+                        if self.w.toks[ti].redeemed == 0 {
+                            self.w.toks[ti].redeemed_at_s = (ct / NS) as i64;
+                        }
                         self.w.toks[ti].redeemed += 1;
                         m.canon
                     }
@@ -1172,6 +1219,9 @@ impl<'a> Exec<'a> {
         if replay {
             self.rep.count("refresh-replay-presented");
             if let Some(f) = tok.sid.and_then(|s| self.w.fams.get_mut(&s)) {
+                if !f.replayed {
+                    f.f1 = same_second;
+                }
                 f.replayed = true;
             }
         }
@@ -1210,13 +1260,13 @@ impl<'a> Exec<'a> {
             self.oracle("refresh-scope-escalation", format!("a refresh never grants scopes beyond the original grant {:?} (presented token: {:?})", tok.root_scopes, tok.scopes), obs.clone());
         }
         if tok.redeemed > 0 {
-            self.oracle("refresh-replay-accepted", "an already rotated refresh token must not be redeemable again (its reuse revokes the session)".into(), format!("{obs}; the token had been redeemed {} time(s)", tok.redeemed));
+            self.oracle(if tok.redeemed_at_s == tok.iat_s { "refresh-replay-same-second" } else { "refresh-replay-accepted" }, "an already rotated refresh token must not be redeemable again (its reuse revokes the session)".into(), format!("{obs}; the token had been redeemed {} time(s)", tok.redeemed));
         }
         if Some(m.sid) != tok.sid || Some(m.account) != tok.account || m.parent != tok.parent {
             self.oracle("refresh-binding", "refreshed tokens stay bound to the same account and sessions".into(), obs.clone());
         }
         for (class, why) in self.ledger_against(tok.account, tok.sid, tok.parent, ct) {
-            self.oracle(&format!("refresh:{class}"), format!("refresh must reject: {why}"), obs.clone());
+            self.oracle(&prefixed("refresh", class), format!("refresh must reject: {why}"), obs.clone());
         }
     }
 
@@ -1272,7 +1322,7 @@ impl<'a> Exec<'a> {
             self.oracle(&format!("{what}:access-lifetime"), format!("access tokens live {ORACLE_ACCESS_S} s"), format!("{obs} iat {} exp {}", tok.iat_s, tok.exp_s));
         }
         for (class, why) in self.ledger_against(tok.account, tok.sid, tok.parent, ct) {
-            self.oracle(&format!("{what}:{class}"), format!("{what} must reject: {why}"), obs.clone());
+            self.oracle(&prefixed(what, class), format!("{what} must reject: {why}"), obs.clone());
         }
     }
 
@@ -1458,7 +1508,8 @@ async fn run_scenario(sc: &Json, drv: Option<&mut Driver>, rep: &mut Report, cou
             "sessrevoke" | "setexpire" | "setvalidfrom" | "touch" => ex.op_directory(op).await,
             o => panic!("bad op {o}"),
         }
-        if !ex.oracle_fail.is_empty() {
+        // keep going past the recorded findings; anything else ends the scenario
+        if ex.oracle_fail.iter().any(|f| !is_finding(&f.class)) {
             break;
         }
     }
@@ -1701,7 +1752,7 @@ fn gen_scenario(seed: u64, i: u64, boundary: bool) -> Json {
     let mut r = Rng::for_case(seed, i);
     let mut clients = std_clients();
     for c in clients.as_array_mut().unwrap() {
-        c["refresh_expiry"] = match r.below(6) {
+        c["refresh_expiry"] = match r.below(7) {
             0 => json!(60),
             1 => json!(600),
             2 => json!(900),
@@ -1714,10 +1765,11 @@ fn gen_scenario(seed: u64, i: u64, boundary: bool) -> Json {
         }
     }
     let nclients = 3u64;
-    let sess = |r: &mut Rng| if r.chance(1, 3) { json!({"exp": *r.pick(&[45i64, 90, 400, 1200])}) } else { json!({"exp": null}) };
+    let sess = |r: &mut Rng| if r.chance(1, 4) { json!({"exp": *r.pick(&[45i64, 90, 400, 1200])}) } else { json!({"exp": null}) };
     let users = json!([
-        {"valid_from": if r.chance(1, 8) { json!(*r.pick(&[5i64, 20])) } else { Json::Null }, "expire": if r.chance(1, 6) { json!(*r.pick(&[100i64, 700, 2000])) } else { Json::Null }, "sessions": [sess(&mut r), sess(&mut r)]},
-        {"valid_from": null, "expire": null, "sessions": [sess(&mut r)]}
+        {"valid_from": if r.chance(1, 12) { json!(*r.pick(&[5i64, 15])) } else { Json::Null }, "expire": if r.chance(1, 8) { json!(*r.pick(&[100i64, 700, 2000])) } else { Json::Null },
+         "sessions": [sess(&mut r), sess(&mut r), sess(&mut r)]},
+        {"valid_from": null, "expire": null, "sessions": [sess(&mut r), sess(&mut r)]}
     ]);
     let dt = |r: &mut Rng| -> u64 {
         match r.below(10) {
@@ -1728,12 +1780,12 @@ fn gen_scenario(seed: u64, i: u64, boundary: bool) -> Json {
             4 => r.range(2, 30) * S,
             5 if boundary => r.range(50, 70) * S,
             6 if boundary => r.range(290, 310) * S,
-            _ => r.range(1, 5000) * MS,
+            _ => r.range(1, 3000) * MS,
         }
     };
     let auth = |r: &mut Rng, k: u64| -> Json {
-        match r.below(if boundary { 12 } else { 20 }) {
-            0 => json!({"client": (k + 1) % nclients, "how": "right"}),
+        match r.below(if boundary { 14 } else { 22 }) {
+            0 => json!({"client": (k + 1 + r.below(2)) % nclients, "how": "right"}),
             1 => json!({"client": k, "how": "wrong_secret"}),
             2 => json!({"client": k, "how": *r.pick(&["nosecret", "none", "unknown", "upper"])}),
             3 => json!({"client": k, "how": "right", "via": "post"}),
@@ -1741,102 +1793,119 @@ fn gen_scenario(seed: u64, i: u64, boundary: bool) -> Json {
         }
     };
     let rel = |r: &mut Rng, op: Json, rels: &[&str]| -> Json {
-        if r.chance(if boundary { 1 } else { 1 }, if boundary { 2 } else { 5 }) {
+        if r.chance(1, if boundary { 3 } else { 8 }) {
             let d = *r.pick(&[-(S as i64), -1, 0, 1, S as i64]);
             at(op, r.pick(rels), d)
         } else {
             op
         }
     };
-    let mut ops = vec![];
-    let nops = r.range(25, 45);
-    let mut last_client = 0u64;
-    for _ in 0..nops {
-        let x = r.below(100);
-        match x {
-            0..=17 => {
-                let k = r.below(nclients);
-                last_client = k;
-                let avail: Vec<&str> = str_set(&clients[k as usize]["scopes"]).iter().map(|s| SCOPES.iter().find(|x| **x == s.as_str()).copied().unwrap_or("openid")).collect();
-                let mut sc: Vec<&str> = avail.iter().filter(|_| r.chance(1, 2)).copied().collect();
-                if sc.is_empty() {
-                    sc.push(avail[0]);
+    let mut ops: Vec<Json> = vec![];
+    let mut pending_restore: Vec<(usize, Json)> = vec![];
+    let episodes = r.range(5, 9);
+    for _ in 0..episodes {
+        // one grant: authorise, exchange (sometimes mutated, then usually properly), then use the tokens
+        let k = r.below(nclients);
+        let avail: Vec<String> = str_set(&clients[k as usize]["scopes"]).into_iter().collect();
+        let mut sc: Vec<&str> = avail.iter().filter(|_| r.chance(3, 5)).map(|s| s.as_str()).collect();
+        if sc.is_empty() {
+            sc.push(avail[0].as_str());
+        }
+        let needs = clients[k as usize]["basic"].as_bool() != Some(true) || clients[k as usize]["disable_pkce"].as_bool() != Some(true);
+        let pk = if needs || r.chance(1, 2) { Some(r.below(4)) } else { None };
+        let u = r.below(2);
+        let mut a = authz(k, u, r.below(3), &sc, pk, dt(&mut r));
+        a["uri"] = json!(r.below(2));
+        ops.push(a);
+        let attempts = if r.chance(1, 3) { 2 } else { 1 };
+        for n in 0..attempts {
+            let mut x = xcode(k, "code_fresh", dt(&mut r));
+            if n + 1 < attempts || r.chance(1, 4) {
+                match r.below(4) {
+                    0 => x["auth"] = auth(&mut r, k),
+                    1 => x["uri"] = json!(*r.pick(&["other", "slash", "query", "http", "case", "stranger"])),
+                    2 => x["verifier"] = json!(*r.pick(&["none", "wrong", "near", "stray"])),
+                    _ => x["sel"] = json!({"kind": *r.pick(&["code_used", "code", "any", "garbage"]), "nth": r.below(3)}),
                 }
-                let needs = clients[k as usize]["basic"].as_bool() != Some(true) || clients[k as usize]["disable_pkce"].as_bool() != Some(true);
-                let pk = if needs || r.chance(1, 2) { Some(r.below(4)) } else { None };
-                let mut a = authz(k, r.below(2), r.below(2), &sc, pk, dt(&mut r));
-                a["uri"] = json!(r.below(2));
-                ops.push(a);
-                if r.chance(3, 4) {
-                    let mut x = xcode(k, "code_fresh", dt(&mut r));
+            }
+            ops.push(rel(&mut r, x, &["exp", "sess_exp", "acct_expire"]));
+        }
+        let follow = r.range(3, 9);
+        for _ in 0..follow {
+            match r.below(100) {
+                0..=39 => {
+                    let kind = *r.pick(&["refresh_fresh", "refresh_fresh", "refresh_fresh", "refresh_fresh", "refresh_rotated", "refresh_rotated", "refresh", "any", "garbage"]);
+                    let scopes = match r.below(9) {
+                        0 => json!("same"),
+                        1 => json!("first"),
+                        2 => json!("root"),
+                        3 => json!("plus"),
+                        4 => json!("empty"),
+                        _ => Json::Null,
+                    };
+                    let mut x = xrefresh(k, kind, scopes, dt(&mut r));
+                    x["extra"] = json!(*r.pick(&SCOPES));
+                    x["sel"]["nth"] = json!(if r.chance(2, 3) { 0 } else { r.below(4) });
+                    if r.chance(1, 14) {
+                        x["sel"]["mut"] = json!(*r.pick(&["flip", "trunc"]));
+                    }
                     x["auth"] = auth(&mut r, k);
-                    if r.chance(1, 6) {
-                        x["uri"] = json!(*r.pick(&["other", "slash", "query", "http", "case", "stranger"]));
+                    ops.push(rel(&mut r, x, &["exp", "iat", "sess_exp", "acct_expire", "grace"]));
+                }
+                40..=64 => {
+                    let which = *r.pick(&["introspect", "userinfo"]);
+                    let mut x = present(which, *r.pick(&["access", "access", "access", "access", "any", "caccess", "refresh", "idtoken", "code"]), dt(&mut r));
+                    x["sel"]["nth"] = json!(if r.chance(1, 2) { 0 } else { r.below(5) });
+                    if which == "userinfo" && r.chance(1, 4) {
+                        x["client"] = json!(r.below(nclients));
                     }
-                    if r.chance(1, 6) {
-                        x["verifier"] = json!(*r.pick(&["none", "wrong", "near", "stray"]));
+                    if r.chance(1, 15) {
+                        x["sel"]["mut"] = json!("flip");
                     }
-                    ops.push(rel(&mut r, x, &["exp", "sess_exp", "acct_expire"]));
+                    ops.push(rel(&mut r, x, &["exp", "grace", "sess_exp", "acct_expire"]));
+                }
+                65..=70 => {
+                    let mut x = present("revoke", *r.pick(&["access", "refresh", "any", "caccess"]), dt(&mut r));
+                    x["sel"]["nth"] = json!(r.below(3));
+                    ops.push(rel(&mut r, x, &["exp"]));
+                }
+                71..=74 => ops.push(json!({"op": "sessrevoke", "user": r.below(2), "session": r.below(3), "dt_ns": dt(&mut r)})),
+                75..=80 => {
+                    let uu = r.below(2);
+                    ops.push(json!({"op": "setexpire", "user": uu, "rel_ns": *r.pick(&[-1i64, 0, 1, S as i64, 30 * S as i64, 400 * S as i64]), "dt_ns": dt(&mut r)}));
+                    if r.chance(2, 3) {
+                        pending_restore.push((ops.len() + r.range(1, 5) as usize, json!({"op": "setexpire", "user": uu, "rel_ns": null, "dt_ns": S})));
+                    }
+                }
+                81..=83 => {
+                    let uu = r.below(2);
+                    ops.push(json!({"op": "setvalidfrom", "user": uu, "rel_ns": *r.pick(&[-1i64, 0, 1, 20 * S as i64]), "dt_ns": dt(&mut r)}));
+                    if r.chance(2, 3) {
+                        pending_restore.push((ops.len() + r.range(1, 5) as usize, json!({"op": "setvalidfrom", "user": uu, "rel_ns": null, "dt_ns": S})));
+                    }
+                }
+                84..=89 => ops.push(json!({"op": "touch", "user": r.below(2), "dt_ns": dt(&mut r)})),
+                90..=94 => {
+                    // an older code, at any client
+                    let kk = r.below(nclients);
+                    let mut x = xcode(kk, *r.pick(&["code_used", "code", "code_fresh"]), dt(&mut r));
+                    x["sel"]["nth"] = json!(r.below(4));
+                    ops.push(rel(&mut r, x, &["exp"]));
+                }
+                _ => {
+                    let kk = r.below(nclients);
+                    let scopes = match r.below(4) {
+                        0 => Json::Null,
+                        1 => json!(["svc"]),
+                        2 => json!(["svc", "read"]),
+                        _ => json!([]),
+                    };
+                    ops.push(json!({"op": "xcc", "auth": auth(&mut r, kk), "scopes": scopes, "dt_ns": dt(&mut r)}));
                 }
             }
-            18..=25 => {
-                let k = if r.chance(3, 4) { last_client } else { r.below(nclients) };
-                let mut x = xcode(k, *r.pick(&["code_fresh", "code_used", "code", "any", "garbage"]), dt(&mut r));
-                x["sel"]["nth"] = json!(r.below(3));
-                x["auth"] = auth(&mut r, k);
-                ops.push(rel(&mut r, x, &["exp", "sess_exp"]));
-            }
-            26..=50 => {
-                let k = if r.chance(3, 4) { last_client } else { r.below(nclients) };
-                let kind = *r.pick(&["refresh_fresh", "refresh_fresh", "refresh_fresh", "refresh_rotated", "refresh_rotated", "refresh", "any", "garbage"]);
-                let scopes = match r.below(8) {
-                    0 => json!("same"),
-                    1 => json!("first"),
-                    2 => json!("root"),
-                    3 => json!("plus"),
-                    4 => json!("empty"),
-                    _ => Json::Null,
-                };
-                let mut x = xrefresh(k, kind, scopes, dt(&mut r));
-                x["extra"] = json!(*r.pick(&SCOPES));
-                x["sel"]["nth"] = json!(r.below(3));
-                if r.chance(1, 12) {
-                    x["sel"]["mut"] = json!(*r.pick(&["flip", "trunc"]));
-                }
-                x["auth"] = auth(&mut r, k);
-                ops.push(rel(&mut r, x, &["exp", "iat", "sess_exp", "acct_expire", "grace"]));
-            }
-            51..=70 => {
-                let which = *r.pick(&["introspect", "userinfo"]);
-                let mut x = present(which, *r.pick(&["access", "access", "access", "any", "caccess", "refresh", "idtoken"]), dt(&mut r));
-                x["sel"]["nth"] = json!(r.below(4));
-                if which == "userinfo" && r.chance(1, 4) {
-                    x["client"] = json!(r.below(nclients));
-                }
-                if r.chance(1, 15) {
-                    x["sel"]["mut"] = json!("flip");
-                }
-                ops.push(rel(&mut r, x, &["exp", "grace", "sess_exp", "acct_expire"]));
-            }
-            71..=76 => {
-                let mut x = present("revoke", *r.pick(&["access", "refresh", "any", "caccess"]), dt(&mut r));
-                x["sel"]["nth"] = json!(r.below(3));
-                ops.push(rel(&mut r, x, &["exp"]));
-            }
-            77..=81 => ops.push(json!({"op": "sessrevoke", "user": r.below(2), "session": r.below(2), "dt_ns": dt(&mut r)})),
-            82..=87 => ops.push(json!({"op": "setexpire", "user": r.below(2), "rel_ns": *r.pick(&[Some(-1i64), Some(0), Some(1), Some(S as i64), Some(30 * S as i64), Some(400 * S as i64), None, None]), "dt_ns": dt(&mut r)})),
-            88..=90 => ops.push(json!({"op": "setvalidfrom", "user": r.below(2), "rel_ns": *r.pick(&[Some(-1i64), Some(0), Some(1), Some(20 * S as i64), None, None]), "dt_ns": dt(&mut r)})),
-            91..=95 => ops.push(json!({"op": "touch", "user": r.below(2), "dt_ns": dt(&mut r)})),
-            _ => {
-                let k = r.below(nclients);
-                let scopes = match r.below(4) {
-                    0 => Json::Null,
-                    1 => json!(["svc"]),
-                    2 => json!(["svc", "read"]),
-                    _ => json!([]),
-                };
-                ops.push(json!({"op": "xcc", "auth": auth(&mut r, k), "scopes": scopes, "dt_ns": dt(&mut r)}));
-            }
+            let due: Vec<Json> = pending_restore.iter().filter(|(at, _)| *at <= ops.len()).map(|(_, o)| o.clone()).collect();
+            pending_restore.retain(|(at, _)| *at > ops.len());
+            ops.extend(due);
         }
     }
     json!({"clients": clients, "users": users, "ops": ops})
@@ -1907,7 +1976,7 @@ fn main() {
             let only = only.to_string_lossy().to_string();
             scenarios.retain(|(n, _)| *n == only);
         } else {
-            let n = args.cases(40, 1200);
+            let n = args.cases(16, 360);
             for i in 0..n {
                 scenarios.push((format!("random{i}"), gen_scenario(args.seed, i, args.budget > 1 || i % 3 == 2)));
             }
@@ -1915,16 +1984,26 @@ fn main() {
         let mut seen: BTreeSet<String> = BTreeSet::new();
         for (name, sc) in scenarios {
             let fails = run_scenario(&sc, drv.as_mut(), &mut rep, true).await;
+            let mut stop = false;
             for first in fails {
                 if !seen.insert(first.class.clone()) {
                     continue;
                 }
-                // shrink each new class of oracle failure once; keep searching for other classes
+                rep.note(format!("oracle failure {} in scenario {name}", first.class));
+                if is_finding(&first.class) && !name.starts_with("random") {
+                    // the scripted witness of a recorded finding: already minimal
+                    rep.fail(first);
+                    continue;
+                }
+                // anything else: shrink, report, stop searching
                 let small = shrink(&first.input, &first.class, &mut drv, &mut rep).await;
                 let again = run_scenario(&small, drv.as_mut(), &mut rep, false).await;
                 let f = again.into_iter().find(|x| x.class == first.class).unwrap_or_else(|| first.clone());
-                rep.note(format!("oracle failure {} in scenario {name}", first.class));
+                stop = stop || !is_finding(&f.class);
                 rep.fail(f);
+            }
+            if stop {
+                break;
             }
         }
     });
